@@ -571,6 +571,50 @@ func checkF15(c *Ctx, r *Report) {
 				}
 			}
 		}
+		// table-driven form: for _, t := range []struct{variable string; target *string}{...} { *t.target = ... }
+		var tblElem *ssa.IndexAddr
+		tblTarget, tblVarField, tblVar := "", "", ""
+		if top == nil {
+			for _, fn := range expFns {
+				forEachInstr(fn, func(in ssa.Instruction) {
+					st, isSt := in.(*ssa.Store)
+					if !isSt || tblElem != nil {
+						return
+					}
+					ia, tf, okE := loopElemField(st.Addr)
+					if !okE {
+						return
+					}
+					var arr *ssa.Alloc
+					switch x := ia.X.(type) {
+					case *ssa.Slice:
+						arr, _ = x.X.(*ssa.Alloc)
+					case *ssa.Alloc:
+						arr = x
+					}
+					if arr == nil {
+						return
+					}
+					for _, row := range tableRows(arr, ia) {
+						ptr := row[tf]
+						if ptr == nil {
+							continue
+						}
+						if p, root := addrPath(ptr); root != nil && p == fm.field && types.Identical(root.Type(), cfgPtr) {
+							for f, v := range row {
+								if k, isK := v.(*ssa.Const); isK && f != tf && constOrEmpty(k) != "" {
+									tblElem, tblTarget, tblVarField, tblVar = ia, tf, f, constOrEmpty(k)
+									top = fn
+									for top.Parent() != nil {
+										top = top.Parent()
+									}
+								}
+							}
+						}
+					}
+				})
+			}
+		}
 		ok := top != nil
 		why := "the expansion function never assigns this field"
 		if ok {
@@ -579,6 +623,17 @@ func checkF15(c *Ctx, r *Report) {
 				ev := newEvaluator(c)
 				ev.MaxDepth = 3
 				ev.Expand = map[string]AV{"$NFPM_PASSPHRASE": cStr("G"), fm.env: cStr(cell.spec)}
+				if tblElem != nil {
+					// this row of the table: its variable is the constant the row holds
+					ev.Bind = map[ssa.Value]AV{}
+					forEachInstr(tblElem.Parent(), func(in ssa.Instruction) {
+						if v, isV := in.(ssa.Value); isV {
+							if ia, f, okE := loopElemField(v); okE && ia == tblElem && f == tblVarField {
+								ev.Bind[v] = cStr(tblVar)
+							}
+						}
+					})
+				}
 				fr := ev.Explore(top, make([]AV, len(top.Params)))
 				type liveStore struct {
 					st  *ssa.Store
@@ -592,6 +647,10 @@ func checkF15(c *Ctx, r *Report) {
 					}
 					if p, root := addrPath(st.Addr); root != nil && p == fm.field && types.Identical(root.Type(), cfgPtr) {
 						live = append(live, liveStore{st, li.F.Eval(st.Val)})
+					} else if tblElem != nil {
+						if ia, f, okE := loopElemField(st.Addr); okE && ia == tblElem && f == tblTarget {
+							live = append(live, liveStore{st, li.F.Eval(st.Val)})
+						}
 					}
 				}
 				// final stores: not followed (dominated-after) by another live store
